@@ -6,7 +6,7 @@
    [span_at] starts and is [span_len] bytes long (every span the code builds is
    a prefix of a suffix of the original input).  No proofs here. *)
 From Coq Require Import List ZArith NArith Bool.
-From WF Require Import Base.Bytes Sem.RangeSet.
+From WF Require Import Base.Bytes Sem.RangeSet Lang.Types Lang.Ast.
 Import ListNotations.
 Open Scope N_scope.
 
@@ -145,22 +145,22 @@ Definition i64_from_str_radix (s : bytes) (radix : Z) : option Z :=
 Definition lex_digits (input : bytes) : lres bytes := take_while is_hexdigit input.
 
 (* parse_number((input, rest), radix): error span = the digits *)
-Definition parse_number (digits rest : bytes) (radix : Z) : lres Z :=
+Definition parse_number (at_ digits rest : bytes) (radix : Z) : lres Z :=
   match i64_from_str_radix digits radix with
   | Some v => LOk v rest
-  | None => LErr EParseInt digits (length digits)
+  | None => LErr EParseInt at_ (length digits)
   end.
 
 Definition lex_int (input : bytes) : lres Z :=
   match starts_with [48; 120] input with                    (* '0x' *)
-  | Some after => lbind (lex_digits after) (fun ds rest => parse_number ds rest 16)
+  | Some after => lbind (lex_digits after) (fun ds rest => parse_number after ds rest 16)
   | None =>
       match input with
-      | 48 :: _ => lbind (lex_digits input) (fun ds rest => parse_number ds rest 8)
+      | 48 :: _ => lbind (lex_digits input) (fun ds rest => parse_number input ds rest 8)
       | _ =>
           let without_neg := match starts_with [45] input with Some r => r | None => input end in
           lbind (lex_digits without_neg)
-                (fun _ rest => parse_number (firstn (span_len input rest) input) rest 10)
+                (fun _ rest => parse_number input (firstn (span_len input rest) input) rest 10)
       end
   end.
 
@@ -176,7 +176,7 @@ Definition lex_int_range (input : bytes) : lres (Z * Z) :=
     end).
 
 (* ---- byte strings: rhs_types/bytes.rs ---- *)
-Inductive bytes_format := FQuoted | FRaw (hashes : N) | FByte.
+(* [bytes_format] (BytesFormat) is defined in Lang/Ast.v *)
 
 (* u8::from_str_radix(digits, radix) for the fixed-width escapes, after the fix
    of the leading '+' acceptance: every character must be a digit of the radix *)
@@ -196,7 +196,7 @@ Definition fixed_byte (n : nat) (radix : Z) (input : bytes) : lres N :=
   lbind (take n input) (fun ds rest =>
     match u8_from_digits ds radix with
     | Some b => LOk b rest
-    | None => LErr EParseInt ds (length ds)
+    | None => LErr EParseInt input (length ds)
     end).
 Definition hex_byte := fixed_byte 2 16%Z.
 Definition oct_byte := fixed_byte 3 8%Z.
@@ -466,7 +466,7 @@ Definition lex_ip (input : bytes) : lres ip :=
   lbind (match_addr_or_cidr input) (fun chunk rest =>
     match parse_addr chunk with
     | Some a => LOk a rest
-    | None => LErr EParseNetwork chunk (length chunk)
+    | None => LErr EParseNetwork input (length chunk)
     end).
 
 Fixpoint find_sub (p s : bytes) (i : nat) : option nat :=
@@ -489,17 +489,56 @@ Definition parse_prefix_len (s : bytes) : option Z :=
 
 Inductive cidr_err := CEAddr | CEHostPart | CELenParse | CELenTooLong.
 
-(* cidr::IpCidr::from_str: an address alone is a host block *)
+(* index of the last occurrence of byte [c] *)
+Fixpoint rfind_byte (c : N) (s : bytes) (i : nat) (found : option nat) : option nat :=
+  match s with
+  | [] => found
+  | b :: r => rfind_byte c r (S i) (if b =? c then Some i else found)
+  end.
+
+(* u8::from_str on decimal digits (leading zeros allowed; a sign cannot occur among the IP characters) *)
+Definition u8_dec (part : bytes) : option Z :=
+  match part with
+  | [] => None
+  | _ =>
+      if forallb is_digit part then
+        match digits_val 10 part 0%Z with
+        | Some v => if (v <? 256)%Z then Some v else None
+        | None => None
+        end
+      else None
+  end.
+
+(* cidr::parsers::parse_short_ipv4_address_as_cidr(..).first_address(): 1..4 decimal octets,
+   missing trailing octets are 0 *)
+Definition parse_short_v4 (s0 : bytes) : option Z :=
+  let parts := split_on 46 s0 [] in
+  if Nat.ltb 4 (length parts) then None
+  else
+    match option_map_all u8_dec parts with
+    | None => None
+    | Some octs =>
+        Some (fold_left (fun acc v => (acc * 256 + v)%Z) (octs ++ repeat 0%Z (4 - length octs)) 0%Z)
+    end.
+
+(* cidr's address parser (local_addr_parser.rs): std first, then the short IPv4 form *)
+Definition parse_loose_ip (s0 : bytes) : option ip :=
+  match parse_addr s0 with
+  | Some a => Some a
+  | None => option_map V4 (parse_short_v4 s0)
+  end.
+
+(* cidr::IpCidr::from_str: split at the LAST '/'; an address alone is a host block *)
 Definition parse_cidr (chunk : bytes) : ip_item + cidr_err :=
-  match find_sub [47] chunk 0 with
+  match rfind_byte 47 chunk 0 None with
   | None =>
-      match parse_addr chunk with
+      match parse_loose_ip chunk with
       | Some (V4 a) => inl (IpCidr4 a 32)
       | Some (V6 a) => inl (IpCidr6 a 128)
       | None => inr CEAddr
       end
   | Some i =>
-      match parse_addr (firstn i chunk) with
+      match parse_loose_ip (firstn i chunk) with
       | None => inr CEAddr
       | Some a =>
           match parse_prefix_len (skipn (S i) chunk) with
@@ -521,18 +560,18 @@ Definition lex_ip_range (input : bytes) : lres ip_item :=
     match find_sub [46; 46] chunk 0 with
     | Some i =>
         match parse_addr (firstn i chunk) with
-        | None => LErr EParseNetwork chunk i
+        | None => LErr EParseNetwork input i
         | Some first =>
             let tl := skipn (i + 2) chunk in
             match parse_addr tl with
-            | None => LErr EParseNetwork tl (length tl)
+            | None => LErr EParseNetwork (skipn (i + 2) input) (length tl)
             | Some last =>
                 match first, last with
                 | V4 a, V4 b => if (a <=? b)%Z then LOk (IpRange4 a b) rest
-                                else LErr EIncompatibleRangeBounds chunk (length chunk)
+                                else LErr EIncompatibleRangeBounds input (length chunk)
                 | V6 a, V6 b => if (a <=? b)%Z then LOk (IpRange6 a b) rest
-                                else LErr EIncompatibleRangeBounds chunk (length chunk)
-                | _, _ => LErr EIncompatibleRangeBounds chunk (length chunk)
+                                else LErr EIncompatibleRangeBounds input (length chunk)
+                | _, _ => LErr EIncompatibleRangeBounds input (length chunk)
                 end
             end
         end
@@ -542,9 +581,9 @@ Definition lex_ip_range (input : bytes) : lres ip_item :=
         | inr e =>
             let split_pos := match find_sub [47] chunk 0 with Some i => i | None => length chunk end in
             match e with
-            | CEAddr | CEHostPart => LErr EParseNetwork chunk split_pos
-            | CELenParse => LErr EParseNetwork (skipn (S split_pos) chunk) (length chunk - S split_pos)
-            | CELenTooLong => LErr EParseNetwork chunk (length chunk)
+            | CEAddr | CEHostPart => LErr EParseNetwork input split_pos
+            | CELenParse => LErr EParseNetwork (skipn (S split_pos) input) (length chunk - S split_pos)
+            | CELenTooLong => LErr EParseNetwork input (length chunk)
             end
         end
     end).
